@@ -1,9 +1,9 @@
 \* C06 translation equivariance -- quick
 CONSTANTS
   ShiftStyle = "pad" LevelStyle = "match" TruncStyle = "exact" AnalyticStyle = "outer" BCubic = "plus"
-  Sizes = {302, 402}
+  Sizes = {302, 402, 303}
   Cells = {23}
-  Halos = {0, 1, 3}
+  Halos = {0, 1, 2, 3}
   ModeSet = {202, 402, 1212}
   NZs = {3}
   LevelLists = "single"
